@@ -142,7 +142,9 @@ def check_case(seg, rect, as_tuples=False):
             out.append(("accept", f"{desc} accepted although no part of the segment is inside"))
         return out
     want_0, want_1 = point_at(fseg, exact[0]), point_at(fseg, exact[1])
-    if sq_dist(res[0], want_0) > tol2 or sq_dist(res[1], want_1) > tol2:
+    if (sq_dist(res[0], want_0) > tol2 or sq_dist(res[1], want_1) > tol2) and not (
+            _shallow(fseg, frect, exact[0], _param(res[0], fseg), REL_TOL * scale) and
+            _shallow(fseg, frect, exact[1], _param(res[1], fseg), REL_TOL * scale)):
         if sq_dist(res[0], want_1) <= tol2 and sq_dist(res[1], want_0) <= tol2 and \
                 inside_len2 > tol2:
             out.append(("orientation", f"{desc} returned {result!r}: endpoints swapped relative "
@@ -151,6 +153,38 @@ def check_case(seg, rect, as_tuples=False):
             out.append(("coverage", f"{desc} returned {result!r}; the inside part is exactly "
                         f"{[tuple(map(float, want_0)), tuple(map(float, want_1))]}"))
     return out
+
+
+def _param(point, fseg):
+    """Parameter in [0, 1] of the point of the input segment nearest to `point`."""
+    (x_1, y_1), (x_2, y_2) = fseg
+    d_x, d_y = x_2 - x_1, y_2 - y_1
+    len2 = d_x * d_x + d_y * d_y
+    if len2 == 0:
+        return F(0)
+    return max(F(0), min(F(1), ((point[0] - x_1) * d_x + (point[1] - y_1) * d_y) / len2))
+
+
+def _shallow(fseg, frect, par_a, par_b, tol):
+    """True when no point of the input segment between the two parameters is inside the
+    rectangle by more than tol.  The statement's tolerance applies to "the inside part" as it
+    does to rejection ("no part of the segment is inside by more than that tolerance"): where a
+    segment runs along an edge within rounding of it, which of its points count as inside is
+    not decidable from rounded coordinates, and a returned end that differs from the exact
+    crossing only by such a stretch is within the statement.  Depth is a minimum of four linear
+    functions of the parameter, so its maximum is at an end or where two of them cross."""
+    low, high = min(par_a, par_b), max(par_a, par_b)
+    (x_1, y_1), (x_2, y_2) = fseg
+    d_x, d_y = x_2 - x_1, y_2 - y_1
+    lines = [(x_1 - frect[0][0], d_x), (frect[1][0] - x_1, -d_x),
+             (y_1 - frect[0][1], d_y), (frect[1][1] - y_1, -d_y)]
+    cands = {low, high}
+    for (c_i, m_i), (c_j, m_j) in itertools.combinations(lines, 2):
+        if m_i != m_j:
+            par = (c_j - c_i) / (m_i - m_j)
+            if low < par < high:
+                cands.add(par)
+    return max(min(c + m * par for c, m in lines) for par in cands) <= tol
 
 
 def _dyadic_safe(_fseg, _frect):
@@ -196,6 +230,24 @@ def lattices(ctx):
         pts = [(x * unit, y * unit) for x, y in points]
         out.append((name, [(a, b) for a in pts for b in pts],
                     [((0.0, 0.0), (3 * unit, 3 * unit)), ((0.0, unit), (3 * unit, 2 * unit))]))
+    # slivers: segments that cross an edge they are nearly parallel to (a pen stroke along the
+    # page border): the crossing point is then the quotient of two tiny differences, exact in the
+    # reference and ill-conditioned in any formula that subtracts two large products instead
+    for eps_name, eps in (("sliver38", 2.0 ** -38), ("sliver45", 2.0 ** -45)):
+        for rect in (((1.0, 1.0), (4.0, 5.0)), ((0.3, 0.7), (11.0, 8.5))):
+            offs = (-3, -1, 0, 1, 2, 5)
+            segs = []
+            for edge in (rect[0][0], rect[1][0]):
+                across = (rect[0][1] - 3, rect[0][1], rect[0][1] + 1.25, rect[1][1] - 0.5,
+                          rect[1][1], rect[1][1] + 2)
+                segs += [((edge + a * eps, y_0), (edge + b * eps, y_1)) for a in offs for b in offs
+                         for y_0 in across for y_1 in across]
+            for edge in (rect[0][1], rect[1][1]):
+                across = (rect[0][0] - 3, rect[0][0], rect[0][0] + 1.25, rect[1][0] - 0.5,
+                          rect[1][0], rect[1][0] + 2)
+                segs += [((x_0, edge + a * eps), (x_1, edge + b * eps)) for a in offs for b in offs
+                         for x_0 in across for x_1 in across]
+            out.append((eps_name, segs, [rect]))
     # seed-derived extra rectangle on the integer lattice (still enumerated completely)
     rnd = core.seeded_ints(ctx.seed, "c08.rect", 4, 3, signed=False)
     x_a, x_b = sorted((rnd[0] % 6 - 1, rnd[1] % 6 - 1))
@@ -247,7 +299,7 @@ def run(ctx):
         "rule": "all segments with both endpoints on an 8x8 lattice (4096 per rectangle: every "
                 "region pair, grazing, vertical/horizontal/zero-length) x rectangles incl. zero-"
                 "height, zero-width and point; the same lattice in tenths, shifted by 1e6 and "
-                "scaled by 1e-3, by 2^-40 and by 2^600 / 2^-600; a seed-derived extra rectangle; thorough: all 225 rectangles with "
+                "scaled by 1e-3, by 2^-40 and by 2^600 / 2^-600; 10368 slivers (segments crossing an edge of a rectangle with non-zero edges at 2^-38 / 2^-45 from parallel, both orientations, all four edges); a seed-derived extra rectangle; thorough: all 225 rectangles with "
                 "corners on a 5x5 sub-lattice and all 100 on four tenths marks; non-trivial = the exact inside "
                 "part is a proper sub-segment (clipping shortened it); all cases distinct",
         "samples": core.rotate(part.samples, ctx.seed, 4),
@@ -255,6 +307,9 @@ def run(ctx):
         "exhaustive": True,
     }
     assumptions = ["tolerance = 1e-9 x the largest coordinate magnitude of the case (purely relative)",
+                   "a returned end may differ from the exact crossing by a stretch of the input "
+                   "segment that is nowhere inside the rectangle by more than that tolerance "
+                   "(the same allowance the statement makes for rejection)",
                    "a segment that only touches the rectangle in one point may be accepted or "
                    "rejected (the statement's tolerance clause)"]
     return {"part": part, "coverage": coverage, "assumptions": assumptions}
